@@ -311,11 +311,16 @@ func c01Replay(r *c01Rec, vt *versionTable) hx.Result {
 	if err != nil {
 		return fail("C01/valid-rejected/"+r.Fam, "valid JSON refused by CanonicalJSON: "+err.Error(), string(want), "error")
 	}
+	saved := clone(out) // the returned bytes must still be the canonical form after later calls (see the end)
 	if !matches(out) {
 		return fail("C01/canon/"+classOf(r.Exp, r.Alt, out), fmt.Sprintf("CanonicalJSON = %+q, canonical form is %+q", out, want), string(want), string(out))
 	}
 	if av := gmsl.CanonicalJSONAssumeValid(clone(in)); !bytes.Equal(av, out) {
 		return fail("C01/assumevalid/"+classOf(r.Exp, r.Alt, av), fmt.Sprintf("CanonicalJSONAssumeValid = %+q but CanonicalJSON = %+q", av, out), string(out), string(av))
+	}
+	// the exported halves, composed the documented way (canonicalise = compact then sort)
+	if cs := gmsl.SortJSON(gmsl.CompactJSON(clone(in), nil), nil); !bytes.Equal(cs, out) {
+		return fail("C01/compact-sort/"+classOf(r.Exp, r.Alt, cs), fmt.Sprintf("SortJSON(CompactJSON(input)) = %+q but CanonicalJSON = %+q", cs, out), string(out), string(cs))
 	}
 	out2, err2 := gmsl.CanonicalJSON(clone(out))
 	if err2 != nil || !bytes.Equal(out2, out) {
@@ -367,6 +372,12 @@ func c01Replay(r *c01Rec, vt *versionTable) hx.Result {
 				note(v, "C01/enforced/output/"+classOf(r.Exp, r.Alt, o2), fmt.Sprintf("EnforcedCanonicalJSON = %+q, canonical form is %+q", o2, want))
 			}
 		}
+	}
+	// results must not share storage with later calls: canonicalise something else, then look at the first result again
+	_, _ = gmsl.CanonicalJSON([]byte("{ \"zz\" : [1, 2.50, \"\\u0041\"], \"aa\" : {\"b\":-0} }"))
+	_ = gmsl.CanonicalJSONAssumeValid([]byte("[\"\\ud83d\\ude00\", 1e-05 ]"))
+	if !bytes.Equal(out, saved) {
+		return fail("C01/result-overwritten", fmt.Sprintf("the slice returned by CanonicalJSON read %+q, after later calls it reads %+q", saved, out), string(saved), string(out))
 	}
 	if first != nil {
 		res := fail(first.key, first.what+fmt.Sprintf(" [room versions %v]", dedupe(failing)), nil, nil)
